@@ -377,13 +377,17 @@ fn fancy_name(rng: &mut Rng, base: &str, quoted: bool) -> String {
     if !quoted || rng.chance(1, 2) {
         return base.to_string();
     }
-    match rng.below(6) {
+    match rng.below(9) {
         0 => format!("{base}[0]"),
         1 => format!("top.{base}:x"),
         2 => format!("{base}#1"),
         3 => format!("${base}"),
         4 => format!("{base},a"),
-        _ => format!("{base}'"),
+        5 => format!("{base}'"),
+        // legal inside |quoted symbols|: parentheses and double quotes (an odd number of them)
+        6 => format!("{base}(0)"),
+        7 => format!("{base}\"q"),
+        _ => format!("{base})"),
     }
 }
 
